@@ -1,5 +1,5 @@
 """C01 -- every submitted job resolves exactly once, with its own outcome."""
-from checks import c02, feedcommon, poolcommon, poolreal
+from checks import c02, feedcommon, poolcommon, poolreal, racecommon
 
 # the clauses of C01 that speak about the parts of map / imap jobs, in MapAsm.tla's terms
 PARTS = ['MapCallbacksOnce', 'MapReadyWhen', 'MapComplete', 'ImapComplete', 'ImapuNoDupNoAlien',
@@ -7,6 +7,7 @@ PARTS = ['MapCallbacksOnce', 'MapReadyWhen', 'MapComplete', 'ImapComplete', 'Ima
 
 
 def main(ctx):
+    racecommon.run(ctx)            # the parent's three outcome writers at check / set granularity
     feedcommon.run(ctx, 'C01')
     poolcommon.run(ctx, 'C01')
     c02.main(ctx, only=PARTS, known=False)
